@@ -56,10 +56,11 @@ REQUIRED_BINS = ["len_1", "len_mps", "len_mid", "zlp", "data_corrupt_crc", "data
                  "data_bad_pid", "foreign_address", "other_endpoint", "other_endpoint_one_bit_away", "non_out_token_then_data", "damaged_token", "corrupt_then_good",
                  "free_exactly_mps", "free_in_cut_zone", "dropped_no_space", "delivered_into_partly_full",
                  "buffer_empty_at_token", "consumer_active_during_packet", "consumer_stalled_whole_packet",
-                 "buffer_nondefault", "two_endpoints", "pid_data1", "pid_data2", "pid_mdata"]
+                 "buffer_nondefault", "two_endpoints", "pid_data1", "pid_data2", "pid_mdata",
+                 "overlong_valid_packet", "overlong_fits", "overlong_exceeds_free_space", "timing_fs12", "timing_fs60", "mps_ge_256"]
 REQUIRED_EVENTS = ["data_packets_sent", "candidates", "candidates_delivered_whole", "transfers_logged", "first_flags_seen",
                    "last_flags_seen", "endpoints_judged"]
-ASSUMPTIONS = ["valid data packets longer than max_packet_size are not generated (illegal host behaviour)",
+ASSUMPTIONS = ["valid data packets longer than max_packet_size (babbling host) may be dropped even with space; they are judged for atomicity (whole or nothing) and flags only",
                "a CRC-valid data packet after a damaged token is unjudged except for atomicity and flags",
                "a candidate must be delivered when the buffer had >= max_packet_size free bytes at the start of its OUT token",
                "delivery time is not constrained; each session ends with a drain (consumer ready until valid has been low for 12 cycles, at most 60 + 6*buffer cycles)"]
@@ -67,6 +68,7 @@ ASSUMPTIONS = ["valid data packets longer than max_packet_size are not generated
 MPS_CHOICES = [1, 2, 3, 4, 8, 8, 13, 16, 16, 32, 64]
 
 KNOWN_CUT = "bytes_dropped_mid_packet_when_space_short"
+KNOWN_OVERFLOW = "overlong_packet_cut_when_it_does_not_fit"
 
 
 class Ep:
@@ -95,11 +97,16 @@ def build(rng):
     from luna.gateware.usb.usb2.endpoints.isochronous_stream_out import USBIsochronousStreamOutEndpoint
     utmi = UTMIInterface()
     dev = USBDevice(bus=utmi)
+    dev.rv_timing = "fs12"
+    if rng.random() < 0.2:
+        dev.always_fs = False           # 60 MHz inter-packet timing tables (ULPI configuration), still full speed
+        dev.data_clock = 60e6
+        dev.rv_timing = "fs60"
     n_eps = 2 if rng.random() < 0.4 else 1
     numbers = rng.sample(range(1, 16), n_eps)
     eps = []
     for num in numbers:
-        mps = rng.choice(MPS_CHOICES)
+        mps = rng.choice(MPS_CHOICES) if rng.random() > 0.08 else rng.choice([256, 512])
         r = rng.random()
         if r < 0.45:
             buf = None
@@ -204,6 +211,14 @@ def judge(ep, res, packets):
             res.bin("free_exactly_mps")
         if ep.mps <= f_lb_ds < ep.mps + L - 1:
             res.bin("free_in_cut_zone")
+        if c["overlong"]:
+            res.bin("overlong_valid_packet")
+            if f_lb_ds >= L:
+                res.bin("overlong_fits")
+            if f_ub < L and f_lb_tok >= ep.mps:
+                res.bin("overlong_exceeds_free_space")
+            if delivered[k] == L:
+                res.bin("overlong_delivered_whole")
         if delivered[k] == 0:
             if f_ub < ep.mps:
                 res.bin("dropped_no_space")
@@ -298,21 +313,30 @@ def classify_failure(ep, res, packets, chunks, bad):
         delivered = [len(m) for m in matched]
         partial = [k for k, c in enumerate(cands) if 0 < len(matched[k]) < len(c["payload"])]
         prev = 0
-        all_short = True
+        kinds = set()
         notes = []
         for k, c in enumerate(cands):
             if k in partial:
                 L = len(c["payload"])
                 f_lb = ep.B - (prev - ep.consumed_upto(c["t_data"]))
-                short = f_lb < ep.mps + L - 1
-                all_short = all_short and short
+                if c["overlong"] and f_lb < L:
+                    kind = "overflow"              # longer than mps and (possibly) longer than the free space
+                elif f_lb < ep.mps + L - 1:
+                    kind = "cut"                   # the per-byte space test can bite
+                else:
+                    kind = "unexplained"
+                kinds.add(kind)
                 if len(notes) < 4:
-                    notes.append("id=0x%02x len=%d delivered_idx=%s free_at_data_start>=%d" % (c["payload"][0], L, matched[k][:6] + (["..."] if len(matched[k]) > 6 else []), f_lb))
+                    notes.append("id=0x%02x len=%d delivered_idx=%s free_at_data_start>=%d (%s)" % (c["payload"][0], L, matched[k][:6] + (["..."] if len(matched[k]) > 6 else []), f_lb, kind))
             prev += delivered[k]
-        if partial and all_short:
-            res.violation(KNOWN_CUT, "%s; partially delivered: %s" % (where, "; ".join(notes)))
+        detail = "%s; partially delivered: %s" % (where, "; ".join(notes))
+        if "unexplained" in kinds or not partial:
+            res.violation("packet_partially_delivered_with_space", detail)
         else:
-            res.violation("packet_partially_delivered_with_space", "%s; partially delivered: %s" % (where, "; ".join(notes)))
+            if "cut" in kinds:
+                res.violation(KNOWN_CUT, detail)
+            if "overflow" in kinds:
+                res.violation(KNOWN_OVERFLOW, detail)
         return delivered
 
     res.violation("output_not_from_valid_packets", "%s; output=%s" % (where, O[:80].hex()))
@@ -325,7 +349,9 @@ def run_case(rng, tier, res):
     dev, utmi, eps = build(rng)
     b = Bench(dev, domain="usb", freq=60e6, max_cycles=90000)
     gap_profile = rng.choice(["none", "none", "random", "fixed4", "onestall"])
-    host = UTMIHost(b, utmi, rng, timing="fs12", ready_profile="always", gap_profile=gap_profile)
+    timing = dev.rv_timing
+    res.bin("timing_" + timing)
+    host = UTMIHost(b, utmi, rng, timing=timing, ready_profile="always", gap_profile=gap_profile)
     for ep in eps:
         b.watch(ep.sig_valid, ep.sig_ready, ep.sig_data, ep.sig_first, ep.sig_last)
     if len(eps) == 2:
@@ -333,7 +359,7 @@ def run_case(rng, tier, res):
     for ep in eps:
         if ep.B != 2 * ep.mps:
             res.bin("buffer_nondefault")
-    res.desc = {"eps": [{"number": e.number, "mps": e.mps, "buffer": e.B} for e in eps], "gap_profile": gap_profile, "steps": []}
+    res.desc = {"eps": [{"number": e.number, "mps": e.mps, "buffer": e.B} for e in eps], "gap_profile": gap_profile, "timing": dev.rv_timing, "steps": []}
     res.sig([(e.number, e.mps, e.B) for e in eps], gap_profile)
     ep_numbers = {e.number for e in eps}
     free_numbers = [n for n in range(0, 16) if n not in ep_numbers]
@@ -417,20 +443,18 @@ def run_case(rng, tier, res):
             if klass == "corrupt":
                 p["class"] = "good"          # damage happened to produce a CRC-valid packet (e.g. nothing cut): reference decides
             for ep in eps:
-                if tgt == ep.number and len(info["payload"]) >= 1 and len(info["payload"]) <= ep.mps:
+                if tgt == ep.number and len(info["payload"]) >= 1:
+                    overlong = len(info["payload"]) > ep.mps
                     ep.cands.append({"payload": bytes(info["payload"]), "t_tok": t_tok, "t_data": t_data, "t_end": b.cycle,
-                                     "required": certain, "pkt": p})
-                    if not certain:
-                        res.unjudged += 1
+                                     "required": certain and not overlong, "overlong": overlong, "pkt": p})
+                    if not certain or overlong:
+                        res.unjudged += 1            # may be dropped; judged for atomicity and flags only
                     if state["last_corrupt"]:
                         res.bin("corrupt_then_good")
-                    # steering estimate (reference behaviour: whole packet iff >= mps free)
+                    # steering estimate (reference behaviour: whole packet iff >= mps free and it fits)
                     occ = ep.est_delivered - len(ep.transfers)
-                    if ep.B - occ >= ep.mps:
+                    if ep.B - occ >= max(ep.mps, len(info["payload"])):
                         ep.est_delivered += len(info["payload"])
-                elif tgt == ep.number and len(info["payload"]) > ep.mps:
-                    # valid but over-long: not judged, and it makes the rest of the session unjudgeable for this endpoint
-                    ep.poisoned = True
             state["last_corrupt"] = False
         else:
             state["last_corrupt"] = True
@@ -461,6 +485,14 @@ def run_case(rng, tier, res):
             t = yield from send_token(U.OUT, 0, ep.number)
             yield from host.idle(token_gap)
             yield from send_data(t, "good", "good", good)
+        elif kind == "overlong":
+            # CRC-valid packet longer than max_packet_size (a babbling host): whole or nothing, never a fragment
+            L = rng.choice([mps + 1, mps + 1, mps + 2, 2 * mps, ep.B, ep.B + 1, rng.randint(mps + 1, ep.B + 2)])
+            L = max(mps + 1, min(L, 1100))
+            long_payload = make_payload(rng, payload[0], L)
+            t = yield from send_token(U.OUT, 0, ep.number)
+            yield from host.idle(token_gap)
+            yield from send_data(t, "overlong_valid", "good", U.data(pid, long_payload))
         elif kind == "zlp":
             res.bin("zlp")
             t = yield from send_token(U.OUT, 0, ep.number)
@@ -542,8 +574,9 @@ def run_case(rng, tier, res):
             yield from send_data(t, "after_non_out_token", "foreign", good)
         elif kind == "token_only":
             yield from send_token(U.OUT, 0, ep.number)
-        # an iso OUT endpoint never answers; leave a legal inter-packet gap
-        yield from host.idle(rng.randint(2, 9))
+        # an iso OUT endpoint never answers; leave a legal inter-packet gap (full speed on the 60 MHz tables: the
+        # bus inter-packet delay of >= 2 bit times is >= 10 cycles, which is also how long luna's receiver takes to re-arm)
+        yield from host.idle(rng.randint(2, 9) if timing == "fs12" else rng.randint(12, 30))
 
     def bystander():
         k = rng.choice(["sof", "sof", "in_absent", "handshake", "idle"])
@@ -588,8 +621,13 @@ def run_case(rng, tier, res):
 
     def driver():
         init_device_signals(b, dev, utmi)
+        if timing == "fs60":
+            b.set(dev.full_speed_only, 1)
         yield from host.idle(5)
         n_tx = rng.randint(25, 60) if tier == "quick" else rng.randint(30, 90)
+        if max(e.mps for e in eps) >= 256:
+            n_tx = rng.randint(10, 16)          # long packets: keep the session affordable
+            res.bin("mps_ge_256")
         sent = 0
         while sent < n_tx:
             # ---- episode
@@ -607,10 +645,10 @@ def run_case(rng, tier, res):
                             yield
                 r = rng.random()
                 if style == "fill":
-                    kind = "good" if r < 0.85 else rng.choice(["crc", "zlp", "other_ep"])
+                    kind = "good" if r < 0.82 else rng.choice(["crc", "zlp", "other_ep", "overlong", "overlong"])
                 elif style == "mixed":
                     kind = ("good" if r < 0.5 else
-                            rng.choice(["crc", "crc", "trunc", "extend", "badpid", "foreign_addr", "other_ep", "other_ep", "bad_token", "zlp", "token_only", "non_out_token"]))
+                            rng.choice(["crc", "crc", "trunc", "extend", "badpid", "foreign_addr", "other_ep", "other_ep", "bad_token", "zlp", "token_only", "non_out_token", "overlong"]))
                 else:
                     kind = ("good" if r < 0.3 else rng.choice(["crc", "crc", "trunc", "trunc", "extend", "badpid", "bad_token", "foreign_addr"]))
                 yield from out_transaction(ep, kind)
@@ -638,9 +676,6 @@ def run_case(rng, tier, res):
         res.violation("harness_max_cycles", "case did not finish in %d cycles" % b.max_cycles)
         return
     for ep in eps:
-        if getattr(ep, "poisoned", False):
-            res.unjudged += 1
-            continue
         if ep.low_run < 12:
             res.violation("output_never_drains", "ep%d: stream.valid still high after the final drain window (%d transfers)" % (ep.number, len(ep.transfers)))
             continue
